@@ -488,7 +488,13 @@ def check_concrete(variant, delta, with_start):
         st = dt.datetime(2024, 2, 28, 23, 30) if with_start else None
         if with_start:
             kw["start_time"] = st
-        pb = ps.SchedulingProblem(name="sol", horizon=40, **kw)
+        if variant == "expression_horizon":
+            # the horizon is declared as a z3 expression (allowed by the field type) bounded by a user constraint
+            uh = z3.Int("user_horizon")
+            pb = ps.SchedulingProblem(name="sol", horizon=uh + 2, **kw)
+            ps.ConstraintFromExpression(expression=uh <= 38)
+        else:
+            pb = ps.SchedulingProblem(name="sol", horizon=40, **kw)
         a = ps.FixedDurationTask(name="A", duration=3, release_date=2)
         b = ps.VariableDurationTask(name="B", min_duration=1, max_duration=4, optional=True)
         z = ps.ZeroDurationTask(name="Z", optional=True)
@@ -538,8 +544,15 @@ def check_concrete(variant, delta, with_start):
                 problems.append(f"{t.name} lists {rname} but {rname} has no assignment for it")
         if not sched and ts.assigned_resources:
             problems.append(f"unscheduled {t.name} has assigned resources {ts.assigned_resources}")
-        if sched and sol.horizon < ts.end:
+        if not isinstance(sol.horizon, int):
+            problems.append(f"the reported horizon is not a number: {sol.horizon!r}")
+        elif sched and sol.horizon < ts.end:
             problems.append("horizon earlier than a task end")
+    try:
+        import json as _json
+        _json.loads(sol.to_json())
+    except Exception as e:
+        problems.append(f"the solution cannot be exported to JSON: {type(e).__name__}: {str(e)[:120]}")
     return problems
 
 
@@ -658,6 +671,8 @@ def shapes(tier):
     out.append(solution_shape("cumulative_in_list", "none"))
     for variant in (("workers", "cumulative") if tier == "thorough" else ("workers",)):
         out.append(twice_shape(variant))
+    out.append(concrete_shape("expression_horizon", 1, True))
+    out.append(concrete_shape("expression_horizon", 0, False))
     for variant in ("scheduled", "b_unscheduled", "cumulative"):
         for di in range(len(DELTAS)):
             for ws in (True, False):
